@@ -205,3 +205,43 @@ func tail(s string, n int) string {
 	}
 	return strings.Join(ls, "\n")
 }
+
+// replay <file>: re-run a stored counterexample against the natively compiled /repo tree.
+func cmdReplay(args []string) {
+	if len(args) < 1 {
+		fmt.Fprintln(os.Stderr, "usage: vcheck replay <replays/....json>")
+		os.Exit(2)
+	}
+	b, err := os.ReadFile(args[0])
+	if err != nil {
+		fmt.Fprintln(os.Stderr, err)
+		os.Exit(2)
+	}
+	var c replayCase
+	if err := json.Unmarshal(b, &c); err != nil {
+		fmt.Fprintln(os.Stderr, err)
+		os.Exit(2)
+	}
+	_, pkg, err := loadProgram(false)
+	if err != nil {
+		fmt.Fprintln(os.Stderr, "ENGINE: cannot load /repo with harness overlay:", err)
+		os.Exit(2)
+	}
+	if c.ID == "" {
+		c.ID = "r"
+	}
+	outs, raw, _ := nativeReplay(pkg, []replayCase{c}, 10*time.Minute)
+	o := outs[c.ID]
+	if reproduced(c, o, raw) {
+		fmt.Printf("REPRODUCED property=%s %s %s on %s%v inputs=%v\n", c.Property, c.Kind, c.Label, c.Harness, c.Args, c.Inputs)
+		if o != nil && o.Panic != "" {
+			fmt.Println(o.Panic)
+		}
+		os.Exit(1)
+	}
+	got := "no result"
+	if o != nil {
+		got = fmt.Sprintf("outcome=%s failed=%v", o.Outcome, o.Failed)
+	}
+	fmt.Printf("not reproduced on the current tree (%s)\n", got)
+}
